@@ -10,6 +10,10 @@ Lemma gsum_1 r : gsum r 1 = 1. Proof. simpl; ring. Qed.
 Lemma gsum_2 r : gsum r 2 = 1 + r. Proof. simpl; ring. Qed.
 Lemma gsum_3 r : gsum r 3 = 1 + r + r * r. Proof. simpl; ring. Qed.
 Lemma gsum_4 r : gsum r 4 = 1 + r + r * r + r * r * r. Proof. simpl; ring. Qed.
+Lemma gsum_5 r : gsum r 5 = 1 + r + r * r + r * r * r + r * r * r * r. Proof. simpl; ring. Qed.
+Lemma gsum_6 r : gsum r 6 = 1 + r + r * r + r * r * r + r * r * r * r + r * r * r * r * r. Proof. simpl; ring. Qed.
+Lemma gsum_7 r : gsum r 7 = 1 + r + r * r + r * r * r + r * r * r * r + r * r * r * r * r + r * r * r * r * r * r. Proof. simpl; ring. Qed.
+Lemma gsum_8 r : gsum r 8 = 1 + r + r * r + r * r * r + r * r * r * r + r * r * r * r * r + r * r * r * r * r * r + r * r * r * r * r * r * r. Proof. simpl; ring. Qed.
 Ltac req_n n := lazymatch n with
   | O => fail
   | S ?k => first [reflexivity | (field; repeat split; nzl) | (progress f_equal; req_n k)]
@@ -27,13 +31,16 @@ Ltac unify_r := repeat match goal with |- context [Rabs (?A1 - 1)] => match goal
 Ltac split_nosqrt_test :=
   match goal with |- context [if ?c then _ else _] =>
     lazymatch c with context [sqrt _] => fail | context [if _ then _ else _] => fail | _ => destruct c end end.
+(* the ratio r (a large expression with a square root) is made an opaque atom before the nodes are compared: the node
+   equations are then polynomial identities in xb, r and the first element length (ring) *)
+Ltac abstract_r := try match goal with H : context [Rabs (?A - 1)] |- _ => let rr := fresh "rr" in set (rr := A) in * end.
 Ltac tie := intros;
   match goal with |- _ = geo_model _ _ ?xb ?xe ?db ?de _ =>
     generalize (ratio_pos xb xe db de); destruct (Req_dec (xe - xb) 0) end;
-  unfold geo_model, ratio, rfu_sum; cbv zeta; rewrite ?gsum_1, ?gsum_2, ?gsum_3, ?gsum_4;
+  unfold geo_model, ratio, rfu_sum; cbv zeta; rewrite ?gsum_1, ?gsum_2, ?gsum_3, ?gsum_4, ?gsum_5, ?gsum_6, ?gsum_7, ?gsum_8;
   cbn [loop set_last removelast app INR];
   [ match goal with H : _ = 0 |- _ => rewrite !H, !Rabs_R0 end; intros _; destruct (Rlt_dec 0 _); [reflexivity | exfalso; lra]
-  | repeat split_nosqrt_test; unify_sqrt; unify_r; repeat split_simple_test; intros Hrpos; try discriminate; try lia;
+  | repeat split_nosqrt_test; unify_sqrt; unify_r; repeat split_simple_test; intros Hrpos; try discriminate; try lia; abstract_r;
     first [reflexivity | (apply f_equal; list_eq ltac:(idtac; req)) | contra] ].
 
 Definition the_prec := 22250738585072014 / 10 ^ 322.
